@@ -33,20 +33,54 @@ def gen_cpp(sets):
            '    const std::string t = r.str("T"); const unsigned n = static_cast<unsigned>(r.u64("n"));',
            '    const std::uint64_t v = r.u64("v"); const bool b = r.u64("b") != 0; const std::string op = r.str("op");',
            '    std::uint64_t out = 0; bool ok = false;']
+    # cross-checks of the other access paths against the named accessors (property: "raw value access, equality,
+    # by-tag access and visiting are consistent with this, at run time and in constant evaluation")
+    pre = []
+    src[4:4] = [
+        'struct choice_probe {',
+        '  unsigned n; bool value; unsigned hits; unsigned calls;',
+        '  template<typename Tag> void on_set_choice(const bool v, Tag) {',
+        '    ++calls; if(sbepp::set_choice_traits<Tag>::index() == n) { value = v; ++hits; } }',
+        '};',
+        'static std::string why;',
+        '']
     for name, enc, idx in sets:
         w = WIDTH[enc]
         u = 'std::uint%d_t' % w
+        # constant evaluation: every choice getter of a constant with a single bit set / cleared
+        for i in range(w):
+            one = '(%s{1} << %d)' % (u, i)
+            pre.append('static_assert(::cs::types::%s{static_cast<%s>%s}.c%d(), "constexpr getter");' % (name, u, one, i))
+            pre.append('static_assert(!::cs::types::%s{static_cast<%s>(~%s)}.c%d(), "constexpr getter");' % (name, u, one, i))
         src.append('    if(t == "u%d") {' % w)
         src.append('      ::cs::types::%s s{static_cast<%s>(v)};' % (name, u))
+        src.append('      const ::cs::types::%s s_in = s;' % name)
+        src.append('      bool tagget = false; ::cs::types::%s stag = s;' % name)
         src.append('      switch(n) {')
         for i in range(w):
-            src.append('      case %d: if(op == "get") { out = s.c%d(); } else { s.c%d(b); out = *s; } ok = true; break;' % (i, i, i))
+            tag = '::cs::schema::types::%s::c%d' % (name, i)
+            src.append('      case %d: tagget = sbepp::get_by_tag<%s>(s_in); sbepp::set_by_tag<%s>(stag, b); '
+                       'if(op == "get") { out = s.c%d(); } else { s.c%d(b); out = *s; } ok = true; break;'
+                       % (i, tag, tag, i, i))
         src.append('      default: break; }')
+        src.append('      if(ok) {')
+        src.append('        const bool named = ((v >> n) & 1) != 0; (void)named;')
+        src.append('        choice_probe pr{n, false, 0, 0}; sbepp::visit(s_in, pr);')
+        src.append('        bool vs_value = false; unsigned vs_hits = 0; const std::string want = "c" + std::to_string(n);')
+        src.append('        sbepp::visit_set(s_in, [&](const bool cv, const char* cn) { if(want == cn) { vs_value = cv; ++vs_hits; } });')
+        src.append('        const bool getter = (op == "get") ? (out != 0) : tagget;')
+        src.append('        if(op == "get" && tagget != getter) { ok = false; why = "get_by_tag"; }')
+        src.append('        if(op == "get" && (pr.hits != 1 || pr.calls != %du || pr.value != getter)) { ok = false; why = "visit"; }' % w)
+        src.append('        if(op == "get" && (vs_hits != 1 || vs_value != getter)) { ok = false; why = "visit_set"; }')
+        src.append('        if(op == "set" && *stag != out) { ok = false; why = "set_by_tag"; }')
+        src.append('      }')
         # equality and raw access consistent with the bits
         src.append('      if(ok && op == "set") { ::cs::types::%s s2{static_cast<%s>(out)}; ::cs::types::%s s0{static_cast<%s>(v)}; '
                    'if(!(s == s2) || ((s == s0) != (v == out)) || ((s != s0) == (v == out))) { ok = false; } }' % (name, u, name, u))
         src.append('    }')
-    src += ['    if(ok) std::cout << "impl=" << out << "\\n"; else std::cout << "impl=ERR\\n";', '  }', '  return 0;', '}']
+    k = src.index('int main() {')
+    src[k:k] = pre + ['']
+    src += ['    if(ok) std::cout << "impl=" << out << "\\n"; else std::cout << "impl=ERR-" << why << "\\n"; why.clear();', '  }', '  return 0;', '}']
     return '\n'.join(src) + '\n'
 
 
